@@ -30,7 +30,7 @@ MonStep(e) ==
           sig |-> "chk:" \o Class(e) \o ":wrong_sum"]
 
 \* design conformance (never a verdict): does the real result equal the transcription's?
-Label(e) == IF e.e = "Chk" /\ ~e.abort /\ e.src.sz <= 64 /\ InDomain(SrcOf(e), e.off, e.n)
+Label(e) == IF e.e = "Chk" /\ ~e.abort /\ e.src.sz <= 24 /\ InDomain(SrcOf(e), e.off, e.n)
             THEN (IF Run({}, SrcOf(e), e.off, e.n).result = e.ret THEN "as_transcription"
                   ELSE "differs_from_transcription")
             ELSE ""
